@@ -57,7 +57,8 @@ def cmd_verify(name):
         os.makedirs(tdir, exist_ok=True)
         if os.path.exists(demo):
             shutil.copy(demo, os.path.join(tdir, "demo_seeded.rs"))
-            demo_cmd = "cargo test --offline -p bio-seq %s --test demo_seeded" % fl
+            rel = "--release " if "--release" in (meta.get("demo_cmd") or "") else ""
+            demo_cmd = "cargo test %s--offline -p bio-seq %s --test demo_seeded" % (rel, fl)
         else:
             demo_cmd = meta.get("demo_cmd")
         rc0, out0 = sh(demo_cmd, cwd=wt, env=env)
